@@ -369,7 +369,7 @@ def run(tier):
     full_doc = parse(full_query)
     fragments_text = full_query[full_query.index("fragment FullType"):]
     lookup_query = "query L($n: String!) { __type(name: $n) { ...FullType } }\n" + fragments_text
-    n_schemas = 20 if quick else 45
+    n_schemas = 20 if quick else 36
     validated = set()
     n_model_cases = [0]
 
